@@ -88,13 +88,26 @@ CHECKS = {
             "lognormal_len/_indpb0/_pos/_welldefined, *_in_place, *_runs) hold for every length, gene, bound (scalar or per gene), eta, alpha, "
             "indpb and every tape of draws: children sums and blend range, every / and ** of bounded SBX and polynomial mutation applied "
             "inside its real domain with the result inside the bounds even before the clamp, identity for indpb = 0, positive strategies "
-            "stay positive, same objects and lengths returned. Core/RealOps.lean keeps the Python operation order; its Float instance "
-            "replays the real operators draw by draw (tolerance 1e-9) on a boundary-draw grid plus random inputs, and the statement is "
-            "evaluated on the real results (isfinite, not complex, bounds exact, sums within rounding tolerance, strategies > 0).",
-            TB + "partial because the theorems are about exact reals: IEEE rounding, overflow, underflow (exp underflow can zero a strategy "
-            "for c >= ~61 or subnormal strategies, outside the stated domain), NaN propagation through min/max and Python's "
-            "OverflowError/ZeroDivisionError/complex pow are searched for by the oracle, not proved absent; libm agreement CPython/Lean Float; "
-            "random.gauss(mu,sigma)=mu+z*sigma; the two individuals of a crossover are distinct objects.",
+            "stay positive, same objects and lengths returned. A second, rounded semantics (Core/RoundedOps.lean: finite | +inf | -inf | nan "
+            "under ANY monotone, exact-on-representables rounding with IEEE special values, nan also = Python exception) runs the same model "
+            "definitions: C10.clamp_in_bounds / clamp_nan / clamp_in_bounds_iff (the final clamp puts every non-nan value inside the bounds and "
+            "keeps nan: the in-bounds clause for floats IS NaN-freedom), C10.sbxb_rounded(_locus) and poly_rounded(_locus) (finite parents inside "
+            "finite bounds with finite width and finite parent sum, width >= 1e-14 for the mutation, eta >= 0, draws in [0,1): no inf-inf, 0*inf, "
+            "0/0, inf/inf, zero divisor, negative base or overflowing power; genes finite and in bounds), C10.poly_width_overflow_nan / "
+            "sbxb_width_overflow_nan (the magnitude hypothesis is necessary: an overflowing width gives nan, as the real code does for "
+            "low=-1e308, up=1e308), C10.lawful_exists. In the standard model of floating-point error C10.blend_sum_rounded / esblend_sum_rounded "
+            "(|c1+c2-(x1+x2)| <= 6u(|x1|+|x2|)(1+|gamma|)+5nu) and sbx_sum_rounded (5u(|x1|+|x2|)(1+|beta|)+5nu) turn the oracle's sum tolerance "
+            "into a proved bound, which the oracle evaluates exactly over the rationals with u=2^-53, nu=2^-1075. Core/RealOps.lean keeps the "
+            "Python operation order; its Float instance replays the real operators draw by draw (tolerance 1e-9, NaN for NaN) on a boundary-draw "
+            "grid, random inputs and an extreme-magnitude stream (widths 1e-300..1.8e308, eta up to 1e300, draws next to 0 and 1) on which the "
+            "Lean-evaluated theorem hypotheses are compared with an independent evaluation and the theorems' conclusion is evaluated on the real "
+            "result; the statement is evaluated on the real results (isfinite, not complex, bounds exact, sums within the proved bound, "
+            "strategies > 0).",
+            TB + "partial because: that CPython's binary64 arithmetic and libm pow satisfy the laws of the rounded semantics (monotone rounding, "
+            "monotone sign-correct pow) and the standard error model is trusted and probed, not proved; the ES mutations (exp underflow can zero a "
+            "strategy for c >= ~61 or subnormal strategies, OverflowError of exp) and the blend range clause have no rounded theorem; "
+            "libm agreement CPython/Lean Float; random.gauss(mu,sigma)=mu+z*sigma; the two individuals of a crossover are distinct objects; "
+            "magnitudes: width xu-xl and parent sum x1+x2 finite doubles (else nan genes, recorded reading).",
             "Lean 4 proof over a RealLike-polymorphic model + forced-tape differential correspondence (Float) + oracle"),
     "C04": ("full",
             "Both procedures are proved equal to the peeling specification for every population of equal-length fitnesses over any ordered field and every k: "
@@ -136,12 +149,22 @@ CHECKS = {
             "minimum value for eight of them; trap/inv_trap maxima, royal_road1 = order x #complete blocks, chuang_f1/f2/f3 optimum values with upper "
             "bounds; bin2float_range/zeros/ones; translate_arg, scale_arg, rotate_arg (inverse contract), stack_arg, noise_adds, bound_id, rand_draw; mp_eval_max, mp_count_inv(+_total), changePeaks_total, mp_call_count, mp_init_dim; "
             "ackley/rastrigin variants non-negative, kursawe/fonseca/poloni/dent published forms, zdt g >= 1 and zdt1_front, dtlz7_structure. "
+            "Benchmark objects (value-semantics model MovingPeaks.init / Bench.step / World.run): mp_init_functions (one function / list of exactly npeaks / "
+            "longer pool sampled on the tape, after fixes F33 F34), mp_init_inv, mp_count_inv_bench and mp_eval_max_bench (count in limits, functions from the "
+            "pool, evaluation = max along every history of changes and counted evaluations), mp_instances_independent (objects built from the same arguments "
+            "never influence each other), mp_global_max, mp_maximums_visible, mp_error_step, popDiversity_nonneg/_equal; decorator histories "
+            "translate_history / scale_history / rotate_history (the parameter installed last is in force); quality indicators igd_nonneg, igd_eq_zero_iff, "
+            "convergence_nonneg, convergence_eq_zero_iff, diversity_nonneg/_single/_uniform; gp targets kotanchek_max, salustowicz_facts, unwrapped_ball_max, "
+            "rational_polynomial_zero, sin_cos_facts, ripple_facts, rational_polynomial2_facts; schaffer_mo_front, h1_range, shekel_pos, royal_road2_ge_road1. "
             "Published-definition models (Core/Bench*.lean, MovingPeaks.lean) are diffed against deap.benchmarks on dimensions 0..30, 1..7 objectives, "
-            "documented ranges + optima, exhaustive bit strings <= 9/12 bits, recording wrapped functions, and the three moving-peaks scenarios through 50 "
-            "changes on a recorded tape; an independent numpy/Fraction transcription of every formula and the front/decorator/moving-peaks clauses are the oracle.",
+            "documented ranges + optima, exhaustive bit strings <= 9/12 bits, recording wrapped functions, the three moving-peaks scenarios through 50 "
+            "changes on a recorded tape, worlds of 1-3 MovingPeaks objects built from one shared pfunc list / scenario dictionary through interleaved histories, "
+            "decorator setter histories with fresh / re-used / in-place refilled argument objects, and the quality indicators of benchmarks.tools; an independent numpy/Fraction transcription of every formula and the front/decorator/moving-peaks clauses are the oracle.",
             TB + "partial: theorems are over the reals/rationals; equality of each float function with its definition is a 1e-9 tolerance correspondence "
             "(IEEE rounding, libm and CPython's compensated sum are not modelled); optima documented to a few decimals (schwefel, three himmelblau minima, "
-            "h1, shekel) are numeric tests; numpy.linalg.inv is a parameter with its inverse contract; a tape must be long enough and well typed for changePeaks to be defined.",
+            "h1, shekel) are numeric tests; numpy.linalg.inv is a parameter with its inverse contract (likewise scipy's cdist for igd, replaced by a numpy stand-in where scipy is absent); a tape must be long enough and well typed for changePeaks to be defined; "
+            "instance independence is a theorem of the value-semantics model, the absence of shared mutable state in the implementation is checked by the mpworld stream, not proved; "
+            "the quality indicators, globalMaximum / maximums / offlineError are outside the statement and covered by model-vs-implementation comparison only.",
             "Lean 4 proofs over published-definition models + tolerance correspondence (Float instance) + independent reference-formula oracle"),
     "C08": ("full",
             "Lean theorems (C08.never_raises, mirror(+_index), sorted_desc, keys_sorted, size_le, worst_monotone, members_shown, copies_fresh, copies_frame, "
